@@ -93,7 +93,15 @@ def build_pref(t):
     if t.get("sqrt", 0):
         pref *= sqrt(int(t["sqrt"]))
     for s in t.get("syms", []):
-        pref *= Symbol(s)
+        # "c1" or "c1^<int>" (powers, also negative: a division by a symbol)
+        name, _, ex = s.partition("^")
+        try:
+            ex = int(ex) if ex else 1
+        except ValueError:
+            raise BadCase(f"bad symbol {s}")
+        if not name.isidentifier() or ex == 0:
+            raise BadCase(f"bad symbol {s}")
+        pref *= Symbol(name) ** ex
     return pref
 
 
@@ -193,6 +201,7 @@ class Cfg:
         self.allow_explicit = True
         self.allow_symbols = True
         self.allow_sqrt = False
+        self.symbol_powers = False   # c^2, 1/c next to plain symbols
         self.allow_delta = True
         self.allow_ops = False
         self.spin_modes = [False, False, False, True]
@@ -436,6 +445,11 @@ def st_term_for_targets(draw, cfg, targets, spin_mode, general, numbered,
         t["sqrt"] = draw(st.sampled_from([2, 3, 6]))
     if cfg.allow_symbols and draw(st.integers(0, 7)) == 0:
         t["syms"] = [draw(st.sampled_from(["c1", "c2"]))]
+        if cfg.symbol_powers and draw(st.booleans()):
+            t["syms"] = [draw(st.sampled_from(
+                ["c1^2", "c1^-1", "c2^-2", "c2^3", "c1^-1"]))] + \
+                ([draw(st.sampled_from(["c2", "c1"]))]
+                 if draw(st.booleans()) else [])
     return t
 
 
